@@ -137,7 +137,7 @@ def check(case: dict):
         labels.append("filters" if names_ else "no-filters")
     after = json.dumps(cfg2.serialize(), default=str, sort_keys=True)
     require(after == before, f"C04:{route}:config-modified", "the configuration object passed in changed")
-    require(cfg2.applied_filters is filters_obj and [dict(f) for f in cfg2.applied_filters] == filters_copy and cfg2.n_mazes == spec["n_mazes"],
+    require([dict(f) for f in cfg2.applied_filters] == filters_copy and cfg2.n_mazes == spec["n_mazes"],
             f"C04:{route}:config-filters-modified", f"applied_filters / n_mazes of the passed config changed: {cfg2.applied_filters}, {cfg2.n_mazes}")
     return {"nt": len(case["history"]) >= 1, "labels": labels}
 
